@@ -29,7 +29,9 @@ def shift_value(N):
     small = st.integers(-4, 4).map(float)
     fr = st.tuples(st.integers(-big - 1, big + 1), st.integers(1, 2**20 - 1)).map(lambda t: t[0] + t[1] / 2**20)
     fr_small = st.tuples(st.integers(-3, 2), st.integers(1, 2**20 - 1)).map(lambda t: t[0] + t[1] / 2**20)
-    return st.one_of(small, ints, fr, fr_small, st.just(0.0), st.just(-0.0))
+    # (shifts far beyond the signal, also beyond 2^31 and 2^32 samples: an hour at MHz rates -- everything is zero-filled)
+    huge = st.sampled_from([2.0**31, -(2.0**31), 2.0**31 + 5.5, 3e9, -3e9, 2.0**32 + 5, -(2.0**32) - 0.25, 1e12, 2.0**53])
+    return st.one_of(small, ints, fr, fr_small, st.just(0.0), st.just(-0.0), small, ints, fr, huge)
 
 
 @st.composite
